@@ -83,8 +83,45 @@ Expect(e) ==
     [] e.field = "seg.upid" -> (IF e.ctx_upidtype = 13 THEN <<>> ELSE e.arg)
     [] e.field = "seg.mid" -> (IF e.ctx_upidtype = 13 THEN e.arg ELSE <<>>)
     [] OTHER -> e.arg
+\* ---- frame condition: a setter changes its own field (and the documented coupled ones) only ----
+SigKeys == {"tier", "pts", "haspts", "cmd_pts", "cmd_haspts", "astuff", "cmdtype"}
+Strip(field) == CASE field = "seg.eid" -> "eid" [] field = "seg.type" -> "type" [] field = "seg.cancel" -> "cancel"
+                  [] field = "seg.hasdur" -> "hasdur" [] field = "seg.dur" -> "dur" [] field = "seg.upidtype" -> "upidtype"
+                  [] field = "seg.upid" -> "upid" [] field = "seg.segnum" -> "segnum" [] field = "seg.segexp" -> "segexp"
+                  [] field = "seg.subnum" -> "subnum" [] field = "seg.subexp" -> "subexp" [] field = "seg.progseg" -> "progseg"
+                  [] field = "seg.dnr" -> "dnr" [] field = "seg.web" -> "web" [] field = "seg.arch" -> "arch" [] field = "seg.noblk" -> "noblk"
+                  [] field = "seg.dev" -> "dev" [] field = "seg.hassub" -> "hassub" [] field = "seg.mid" -> "mid" [] field = "seg.comps" -> "comps"
+                  [] field = "ins.eid" -> "eid" [] field = "ins.out" -> "out" [] field = "ins.cancel" -> "cancel" [] field = "ins.hasdur" -> "hasdur"
+                  [] field = "ins.dur" -> "dur" [] field = "ins.autoret" -> "autoret" [] field = "ins.upid" -> "upid" [] field = "ins.avail" -> "avail"
+                  [] field = "ins.avails" -> "avails" [] field = "ins.program" -> "program" [] field = "ins.immediate" -> "immediate"
+                  [] OTHER -> field
+\* getter keys a setter may change
+MayChange(field) ==
+  CASE field = "seg.type" -> {"type", "hassub"}
+    [] field = "seg.upidtype" -> {"upidtype", "upid", "mid"}
+    [] field = "pts" -> {"pts", "cmd_pts"}
+    [] field = "adjustpts" -> {"pts"}
+    [] field = "haspts" -> {"haspts", "cmd_haspts"}
+    [] field = "cmd.pts" -> {"cmd_pts"}
+    [] field = "cmd.haspts" -> {"cmd_haspts", "haspts"}
+    [] OTHER -> {Strip(field)}
+SameExcept(x, y, keys) == DOMAIN x = DOMAIN y /\ \A k \in DOMAIN x : k \in keys \/ x[k] = y[k]
+FrameBroken(e) ==
+  LET b == e.before  a == e.after  ch == MayChange(e.field)
+      sigOK == \A k \in SigKeys : (e.seg_index < 0 /\ k \in ch) \/ b[k] = a[k]
+      insOK == IF DOMAIN b.insert = {} \/ DOMAIN a.insert = {} THEN b.insert = a.insert
+               ELSE IF e.target = "cmd" THEN SameExcept(b.insert, a.insert, ch) ELSE b.insert = a.insert
+      segOK == /\ Len(b.descs) = Len(a.descs)
+               /\ \A j \in 1..Len(b.descs) :
+                     IF j = e.seg_index + 1 THEN SameExcept(b.descs[j], a.descs[j], ch) ELSE b.descs[j] = a.descs[j]
+  IN IF ~sigOK THEN "signal-level-getter"
+     ELSE IF ~insOK THEN "splice-insert-getter"
+     ELSE IF ~segOK THEN "descriptor-getter"
+     ELSE ""
 SetVerdict(e, raw) ==
   IF e.got # Expect(e) THEN "setter-not-reflected-" \o e.field
+  ELSE IF FrameBroken(e) # "" THEN "setter-" \o e.field \o "-changed-another-" \o FrameBroken(e)
+  ELSE IF e.field = "seg.type" /\ e.arg \in {52, 54} /\ e.after.descs[e.seg_index + 1].hassub # e.before.descs[e.seg_index + 1].hassub THEN "settype-changes-sub-segments"
   ELSE IF e.field = "seg.type" /\ e.arg \notin {52, 54} /\ e.hassub_after THEN "settype-keeps-sub-segments"
   ELSE IF e.data_after # raw THEN "data-changed-by-setter"
   ELSE ""
